@@ -17,7 +17,6 @@ func (s *Sim) checkOwnTx(b *blockObs, i int, tx []byte, r abci.ResponseDeliverTx
 }
 
 
-func (s *Sim) endOfRun() {}
 
 // checkUpgradeGlobals (C37): the activation schedule a restarted node derives from state equals
 // what the chain scheduled.
